@@ -91,6 +91,72 @@ def gen_problem(rng, tier):
     return out
 
 
+def _grown_blocks(rng, h, w, cells, max_size):
+    """Random division of `cells` into orthogonally connected blocks of at most `max_size` cells (grown one after the other
+    from a random free cell); returns {cell: block index}."""
+    free = set(cells)
+    owner = {}
+    order = list(cells)
+    rng.shuffle(order)
+    k = 0
+    for c in order:
+        if c not in free:
+            continue
+        size = rng.randint(1, max_size)
+        block = [c]
+        free.discard(c)
+        while len(block) < size:
+            nb = [(y + dy, x + dx) for (y, x) in block for dy, dx in ((1, 0), (-1, 0), (0, 1), (0, -1)) if (y + dy, x + dx) in free]
+            if not nb:
+                break
+            q = rng.choice(nb)
+            free.discard(q)
+            block.append(q)
+        for q in block:
+            owner[q] = k
+        k += 1
+    return owner
+
+
+def extra_program_problems(rng):
+    """Larger boards for the program correspondence only (nothing is enumerated there): one non-square medium board and two
+    with more than 256 cells (a tall and a wide one).  Cells are blocked out (mostly on the rim, as on the small boards) so
+    that a multiple of five remains; the numbers are read off a random division into connected regions of at most five
+    cells."""
+    from . import _loop
+    return [_gen_large(rng, h, w) for h, w in _loop.big_shapes(rng)]
+
+
+def _gen_large(rng, h, w):
+    n = h * w
+    pb = [[-1] * w for _ in range(h)]
+    nblock = n % 5 + 5 * rng.randint(0, n // 40)
+    cells = [(y, x) for y in range(h) for x in range(w)]
+    rng.shuffle(cells)
+    if rng.random() < 0.5:
+        cells.sort(key=lambda c: -((c[0] in (0, h - 1)) + (c[1] in (0, w - 1))))
+    for (y, x) in cells[:nblock]:
+        pb[y][x] = -2 if rng.random() < 0.9 else -3
+    out = {"height": h, "width": w, "problem": pb}
+    board, pairs = _board(out)
+    owner = _grown_blocks(rng, h, w, board, 5)
+    flags = [owner[a] != owner[b] for a, b in pairs]
+    show = rng.choice([0.15, 0.3, 0.6])
+    flag = {}
+    for (a, b), f in zip(pairs, flags):
+        flag[(a, b)] = flag[(b, a)] = f
+    for (y, x) in board:
+        if rng.random() < show:
+            pb[y][x] = sum(1 for c in ((y - 1, x), (y + 1, x), (y, x - 1), (y, x + 1)) if flag.get(((y, x), c), True))
+    for _ in range(rng.randint(0, 2)):
+        # an arbitrary number, but not below the count of sides that are borders anyway (the module answers such an instance
+        # without posting anything: covered by the small boards)
+        y, x = rng.choice(board)
+        fixed = sum(1 for c in ((y - 1, x), (y + 1, x), (y, x - 1), (y, x + 1)) if ((y, x), c) not in flag)
+        pb[y][x] = rng.randint(fixed, 5)
+    return out
+
+
 def solve_args(problem):
     return (problem["height"], problem["width"], problem["problem"]), {}
 
